@@ -422,7 +422,9 @@ def minvar_expect(c):
                 else:
                     gt = t > 0 and var < t * t
                 # can f64 rounding flip the decision?  only next to the boundary of an inexact computation
-                exact = all(rep(x) for x in (mean, var, sum(x * x for x in col))) and is_square(var) and \
+                devs = [x - mean for x in col]
+                partial = [sum(col[:j + 1]) for j in range(n)] + [sum(d * d for d in devs[:j + 1]) for j in range(n)]
+                exact = all(rep(x) for x in [mean, var] + devs + [d * d for d in devs] + partial) and is_square(var) and \
                     (mean == 0 or rep(Fr(math.isqrt(var.numerator), math.isqrt(var.denominator)) / mean))
                 if not exact:
                     scale = max(var, t * t)
